@@ -94,7 +94,7 @@ def c01_jobs(tier):
 
 
 def c03_jobs(tier):
-    ks = [0, 1, 2, 3] if tier == "quick" else [0, 1, 2, 3, 4, 5]
+    ks = [0, 1, 2, 3, 4, 5]
     jobs = [J("hsms", "ZZ_C03_raw", k=k, freelen=0, timeout_s=(1500 if tier == "quick" else 7200)) for k in ks]
     jobs += [J("hsms", "ZZ_C03_raw", k=k, freelen=1) for k in ([0, 1] if tier == "quick" else [0, 1, 2])]
     # the same bytes as the front part of a larger buffer (16 zero bytes / 17 bytes repeating the input behind them)
@@ -132,7 +132,7 @@ def c03_jobs(tier):
 
 
 def c07_jobs(tier):
-    ks = [0, 1, 2, 3] if tier == "quick" else [0, 1, 2, 3, 4, 5]
+    ks = [0, 1, 2, 3, 4] if tier == "quick" else [0, 1, 2, 3, 4, 5]
     jobs = [J("hsms", "ZZ_C07_raw", k=k, freelen=0, timeout_s=(1500 if tier == "quick" else 7200)) for k in ks]
     jobs += [J("hsms", "ZZ_C07_raw", k=k, freelen=1) for k in [0, 1]]
     depths = [0, 1, 2] if tier == "quick" else [0, 1, 2, 3, 4]
@@ -661,8 +661,8 @@ _b("C02",
    "n<=5; trees as C01 thorough; item boundaries also 65,535/65,536 bytes",
    ["trees beyond the stated depth/width", "payload values of items above 2 elements other than 3 symbolic positions (first, middle, last) in boundary items"])
 _b("C03",
-   "14-byte frame + k<=3 arbitrary text bytes (frame fixed to a data message) and k<=1 with every frame byte arbitrary, against the reference decoder; 13 formats x n<=2 x 1..3 length bytes (non-minimal allowed) x 8 single corruptions; ASCII/binary/numeric items of 7..33 arbitrary payload bytes; ASCII/binary items whose 2-3 length bytes are all arbitrary with 0/256/257/300 bytes present; length fields of different widths in sequence (4 layouts); decode->re-encode of list trees depth 2 width 2",
-   "k<=5 (k<=2 with arbitrary frame); n<=3; 1000 bytes present; trees over 4 leaf formats",
+   "14-byte frame + k<=5 arbitrary text bytes (frame fixed to a data message) and k<=1 with every frame byte arbitrary, against the reference decoder; 13 formats x n<=2 x 1..3 length bytes (non-minimal allowed) x 8 single corruptions; ASCII/binary/numeric items of 7..33 arbitrary payload bytes; ASCII/binary items whose 2-3 length bytes are all arbitrary with 0/256/257/300 bytes present; length fields of different widths in sequence (4 layouts); decode->re-encode of list trees depth 2 width 2",
+   "k<=2 with arbitrary frame; n<=3; 1000 bytes present; trees over 4 leaf formats",
    ["message text longer than the bound without structure", "more than one simultaneous corruption in the structured family", "input slices with spare capacity (C07 sparecap covers the capacity clause)"])
 _b("C04",
    "names k<=2 arbitrary bytes; ASCII items k<=2 characters (all 128 values); 1- and 2-byte numeric formats full range with n<=2 elements, 4/8-byte formats boundary menu; float menu (15 F4 / 12 F8 values incl. -0 and the float32 that double-rounds through float64) squared; 5 variable/ellipsis templates with ASCII bounds 0..12; 11 fixed accepted texts (print -> parse fixed point) incl. 70 messages in one text, trees 24 and 130 levels deep, lists of 110+60 siblings",
@@ -677,7 +677,7 @@ _b("C06",
    "k<=4; 2 arbitrary bytes at every position; numbers up to 12 symbolic digits; 100 nested lists",
    ["inputs longer than the bound", "runtime-fatal stack exhaustion on megabyte-deep nesting", "coverage-guided mutation (different technique)"])
 _b("C07",
-   "k<=3 arbitrary text bytes (and k<=1 with arbitrary frame); an item header at nesting depth<=2 declaring an arbitrary 1..3-byte length with 0/2 bytes present (5 formats); inputs that are a prefix of a 200,000-byte buffer (5 header kinds); 14 growth families (engine: members 32/64; native: members scale and 2 x scale, 3,000..20,000)",
+   "k<=4 arbitrary text bytes (and k<=1 with arbitrary frame); an item header at nesting depth<=2 declaring an arbitrary 1..3-byte length with 0/2 bytes present (5 formats); inputs that are a prefix of a 200,000-byte buffer (5 header kinds); 14 growth families (engine: members 32/64; native: members scale and 2 x scale, 3,000..20,000)",
    "k<=5; depth<=4, 14 formats, 0/1/2/4 bytes present; growth members 128/256",
    ["runtime-fatal stack exhaustion on megabyte-deep nesting", "input shapes outside the 14 growth families for the super-linear clause", "unstructured inputs longer than the bound"])
 _b("C08",
